@@ -295,6 +295,9 @@ func calcSegmentAvailabilityTime(a *asset, rep *RepData, nr uint32, cfg *Respons
 	}
 	segAvailTimeS -= ato
 	milliSeconds := int64(segAvailTimeS * 1_000)
+	if float64(milliSeconds) < segAvailTimeS*1_000-1e-6 {
+		milliSeconds++ // Never before the segment is available (2.002s is 2001.99..ms as float)
+	}
 	return milliSeconds, nil
 }
 
